@@ -13,6 +13,8 @@ IMSG    guarantee side of I(Message) for parser results: every container inside 
         sub-slices of the declared payload (<= 65531 bytes), and overall_length() of the returned header was itself
         discharged in context (validated_payload_length).
 """
+import os
+
 from engine import cfg
 from engine.interp import Budget, Engine
 from engine.lin import Lin
@@ -84,78 +86,143 @@ def run(ctx):
         pass
     for c in cycles:
         R.violation("REC", "recursion|" + "|".join(sorted(c)), "recursive cycle among %s" % ", ".join(sorted(c)), function=sorted(c)[0])
-    # ---- level 1: dlt_message_intern in context
-    eng1, outs1 = lib_parse.level1(ctx)
-    lib_panic.report(ctx, eng1, "PANIC", entry=lib_parse.INTERN)
-    used = dict(eng1.cut_uses)
-    # ---- the wrapper and the other entry points, stand-alone
-    engines = [eng1]
-    for e in ENTRIES:
-        cuts = lib_parse.CUTS + ((lib_parse.INTERN,) if e == "parse::dlt_message" else ())
-        try:
-            eng, outs = lib_parse.standalone(ctx, e, cuts=cuts)
-        except Budget as ex:
-            R.violation("PANIC", e + "|budget", "analysis budget exceeded: %s" % ex, function=e, kind="UNRECOGNISED-SHAPE")
+    # ---- the independent analyses run in forked workers (the facts are shared copy-on-write)
+    tasks = [("level1", None)] + [("entry", e) for e in ENTRIES] + [("cut", c) for c in lib_parse.CUTS] + [("writer", p) for p in WRITER]
+    results = run_parallel(ctx, tasks)
+    used = {}
+    for (kind, arg), res in zip(tasks, results):
+        if "error" in res:
+            R.violation("PANIC", "%s|%s|error" % (kind, arg), "analysis failed: %s" % res["error"], function=arg or lib_parse.INTERN, kind="UNRECOGNISED-SHAPE")
             continue
-        lib_panic.report(ctx, eng, "PANIC", entry=e)
-        engines.append(eng)
-        for k, v in eng.cut_uses.items():
+        rule = "WRITER" if kind == "writer" else "PANIC"
+        lib_panic.report_obs(ctx, res["obs"], res["analysed"], rule, entry=arg or lib_parse.INTERN)
+        for k, v in res.get("cut_uses", {}).items():
             used[k] = used.get(k, 0) + v
-    # ---- modular cuts: PANIC stand-alone + guarantee of the assumed contract
+        for v in res.get("violations", []):
+            R.violation(*v["args"], **v["kw"])
+        for o in res.get("obligations", []):
+            R.obligation(*o)
+        for inst in res.get("instances", []):
+            R.instance(*inst)
     for c in lib_parse.CUTS:
-        eng = lib_parse.check_weak_contract(ctx, c, "NOMC")
-        if eng is not None:
-            lib_panic.report(ctx, eng, "PANIC", entry=c)
-            engines.append(eng)
         R.instance("NOMC", "%s: weak parser contract assumed at %d call site evaluation(s)" % (c, used.get(c, 0)))
+    R.assumptions.append("I(Message): every String/Vec inside the message has length <= %d; header.overall_length() does not overflow u16" % I_MAX_STR)
     R.floor("NOMC", 2)
     R.floor("PANIC", 40)
-    writer_side(ctx)
-    imsg_guarantee(ctx, eng1)
-
-
-def writer_side(ctx):
-    F, R = ctx.facts, ctx.report
-    n = 0
-    for p in WRITER:
-        eng = Engine(F, budget=3000000)
-        eng.merge_returns = True
-        eng.len_max = I_MAX_STR
-        assumed = []
-
-        def on_call(eng_, st, fr, f, args, site, _a=assumed):
-            lp = f["resolved"] or f["path"]
-            if lp == "dlt::StandardHeader::overall_length":
-                _a.append(fr.path)
-                return [(st, eng_.fresh_int("overall_length", 16, False))]
-            return None
-
-        eng.on_call = on_call
-        b = F.body(p)
-        try:
-            eng.call_path(p, eng.symbolic_args(b))
-        except Budget as ex:
-            R.violation("WRITER", p + "|budget", "analysis budget exceeded: %s" % ex, function=p, kind="UNRECOGNISED-SHAPE")
-            continue
-        n += lib_panic.report(ctx, eng, "WRITER", entry=p)
-        if assumed:
-            R.instance("WRITER.assume", "%s: StandardHeader::overall_length() assumed to fit 16 bits (I(Message), guaranteed for parser results by IMSG)" % p)
-    R.assumptions.append("I(Message): every String/Vec inside the message has length <= %d; header.overall_length() does not overflow u16" % I_MAX_STR)
     R.floor("WRITER", 100)
+    R.floor("IMSG", 4)
 
 
-def imsg_guarantee(ctx, eng1):
-    F, R = ctx.facts, ctx.report
-    # (a) overall_length() of the returned header was discharged in context
-    key = "dlt::StandardHeader::overall_length|Overflow Add(length,self.7):u16"
+_CTX = None
+
+
+def run_parallel(ctx, tasks):
+    import multiprocessing as mp
+    global _CTX
+    _CTX = ctx
+    n = min(len(tasks), max(1, (os.cpu_count() or 2) - 1))
+    if os.environ.get("VERIF_SERIAL"):
+        return [worker(t) for t in tasks]
+    with mp.get_context("fork").Pool(n) as pool:
+        return pool.map(worker, tasks, chunksize=1)
+
+
+class Collect:
+    """Stand-in for the report inside a worker: records what the rule code reports, picklable."""
+
+    def __init__(self):
+        self.out = {"violations": [], "obligations": [], "instances": []}
+
+    def violation(self, *a, **kw):
+        self.out["violations"].append({"args": a, "kw": kw})
+
+    def obligation(self, *a, **kw):
+        self.out["obligations"].append(a)
+
+    def instance(self, *a):
+        self.out["instances"].append(a)
+
+
+def worker(task):
+    kind, arg = task
+    ctx = _CTX
+    F = ctx.facts
+    try:
+        class Sub:
+            pass
+
+        sub = Sub()
+        sub.facts, sub.prop, sub.cg = F, ctx.prop, None
+        col = Collect()
+        sub.report = col
+        if kind == "level1":
+            eng, outs = lib_parse.level1(sub)
+            imsg_level1(sub, eng)
+        elif kind == "entry":
+            cuts = lib_parse.CUTS + ((lib_parse.INTERN,) if arg == "parse::dlt_message" else ())
+            eng, outs = lib_parse.standalone(sub, arg, cuts=cuts, plain=(arg == "parse::construct_arguments"))
+        elif kind == "cut":
+            eng = lib_parse.check_weak_contract(sub, arg, "NOMC")
+            imsg_argument(sub, eng, arg)
+        else:
+            eng = writer_engine(F, col, arg)
+            eng.call_path(arg, eng.symbolic_args(F.body(arg)))
+        res = dict(col.out)
+        res["obs"] = lib_panic.export(eng)
+        res["analysed"] = sorted(eng.analysed)
+        res["cut_uses"] = dict(eng.cut_uses)
+        return res
+    except Budget as ex:
+        return {"error": "analysis budget exceeded: %s" % ex}
+    except Exception as ex:  # fail closed in the parent
+        import traceback
+        return {"error": "%r\n%s" % (ex, traceback.format_exc()[-1500:])}
+
+
+def writer_engine(F, R, p):
+    eng = Engine(F, budget=3000000)
+    eng.merge_returns = True
+    eng.len_max = I_MAX_STR
+    seen = []
+
+    def on_call(eng_, st, fr, f, args, site):
+        lp = f["resolved"] or f["path"]
+        if lp == "dlt::StandardHeader::overall_length":
+            if not seen:
+                seen.append(1)
+                R.instance("WRITER.assume", "%s: StandardHeader::overall_length() assumed to fit 16 bits (I(Message), guaranteed for parser results by IMSG)" % p)
+            return [(st, eng_.fresh_int("overall_length", 16, False))]
+        return None
+
+    eng.on_call = on_call
+    return eng
+
+
+def imsg_level1(ctx, eng1):
+    """Guarantee side of I(Message), part (a) and (c), from the in-context analysis."""
+    R = ctx.report
     obs = [o for k, o in eng1.obligations.items() if k.startswith("dlt::StandardHeader::overall_length|Overflow")]
     if obs and all(o.status == "discharged" for o in obs):
         R.obligation("IMSG", "header|overall_length-fits", "discharged", "%d overflow obligation(s) of overall_length() discharged on the parsed header in the context of validated_payload_length" % len(obs))
         R.instance("IMSG", "returned header: overall_length() fits 16 bits (checked in context)")
     else:
         R.violation("IMSG", "header|overall_length-fits", "overall_length() of the parsed header is not shown to fit 16 bits in the parser's context, so byte_len()/as_bytes() of a returned message may overflow", function="dlt::StandardHeader::overall_length")
-    # (b) containers inside a returned Argument are bounded by the input of dlt_argument
-    c = "parse::dlt_argument"
+    sites = eng1.cut_sites
+    bad = [s for s in sites if not s[0]]
+    R.instance("IMSG", "dlt_argument applied at %d evaluated call site(s) of the in-context analysis" % len(sites))
+    if not sites:
+        R.violation("IMSG", "argument-input|none", "dlt_argument is not reached from dlt_message_intern in the in-context analysis", kind="UNRECOGNISED-SHAPE")
+    elif bad:
+        R.violation("IMSG", "argument-input|unbounded", "dlt_argument is applied to a slice whose length (%s) is not bounded by the declared payload (<= 65531 bytes): a parsed name/string can reach 65535 bytes and `len as u16 + 1` panics when the message is re-serialised" % (bad[0][2],), function=bad[0][1])
+    else:
+        R.obligation("IMSG", "argument-input|bounded", "discharged", "every input slice of dlt_argument has length <= %d" % (I_MAX_STR + 4))
+
+
+def imsg_argument(ctx, eng, c):
+    """Guarantee side of I(Message), part (b): containers inside a returned Argument are bounded by the input."""
+    F, R = ctx.facts, ctx.report
+    if eng is None:
+        return
     eng, outs = lib_parse.standalone(ctx, c)
     nm = lib_parse.first_arg_name(F, c)
     ilen = Lin.sym("len(%s)" % nm)
@@ -182,25 +249,3 @@ def imsg_guarantee(ctx, eng1):
                     R.violation("IMSG", "%s|unbounded|%s" % (c, cont.kind), "a %s inside the Argument returned by dlt_argument (path %s, length %s) is not bounded by the bytes of its input: re-serialising it (`len as u16 + 1`) can overflow" % (cont.kind, path, cont.len), function=c, file=b["span"]["f"], line=b["span"]["l"])
     for _ in range(min(n, 8)):
         R.instance("IMSG", "container bounded by input")
-    # (c) dlt_argument is applied only to slices of at most 65531 + 4 bytes
-    sites = []
-
-    def on_call(eng_, st, fr, f, args, site):
-        lp = f["resolved"] or f["path"]
-        if lp == c and args and isinstance(args[0], Slice):
-            ok = st.holds(Lin.const(I_MAX_STR + 4).sub(args[0].len), eng_)
-            sites.append((ok, fr.path, args[0].len))
-        return None
-
-    e2 = lib_parse.mk_engine(F)
-    e2.on_call = on_call
-    e2.call_path(lib_parse.INTERN, e2.symbolic_args(F.body(lib_parse.INTERN)))
-    bad = [s for s in sites if not s[0]]
-    R.instance("IMSG", "dlt_argument applied at %d evaluated call site(s) of the in-context analysis" % len(sites))
-    if not sites:
-        R.violation("IMSG", "argument-input|none", "dlt_argument is not reached from dlt_message_intern in the in-context analysis", kind="UNRECOGNISED-SHAPE")
-    elif bad:
-        R.violation("IMSG", "argument-input|unbounded", "dlt_argument is applied to a slice whose length (%s) is not bounded by the declared payload (<= 65531 bytes): a parsed name/string can reach 65535 bytes and `len as u16 + 1` panics when the message is re-serialised" % (bad[0][2],), function=bad[0][1])
-    else:
-        R.obligation("IMSG", "argument-input|bounded", "discharged", "every input slice of dlt_argument has length <= %d" % (I_MAX_STR + 4))
-    R.floor("IMSG", 4)
